@@ -962,6 +962,40 @@ ORDER = ["_compute_angular_position_and_speed", "_check_powertrain_is_locked", "
          "_update_time_variables"]
 
 
+
+# ---- order of the steps inside one instant: only the dependencies the properties need (a partial order), so that
+# ---- reordering independent steps is not reported
+def instant_order(seq, held, with_control):
+    """seq: names of the steps executed for one instant -> list of (constraint, holds)"""
+    P, K, L_, LD, C, DR, N, A, F, S, I, R = (
+        "_compute_angular_position_and_speed", "_check_powertrain_is_locked",
+        "_compute_locked_powertrain_angular_speed_and_acceleration", "_compute_load_torque", "apply_rules",
+        "_compute_driving_torque", "_compute_torque", "_compute_angular_acceleration", "_compute_force", "_compute_stress",
+        "_compute_electric_current", "_update_time_variables")
+
+    def once(x):
+        return seq.count(x) == 1
+
+    def before(a, b):
+        return once(a) and once(b) and seq.index(a) < seq.index(b)
+    must = [P, K, LD, DR, N, F, S, I, R] + ([C] if with_control else []) + ([L_] if held else [A])
+    out = [("every-step-exactly-once", all(once(x) for x in must) and (seq.count(A) == 0 if held else seq.count(L_) == 0))]
+    out.append(("position/speed-propagated-before-the-lock-test", before(P, K)))
+    if held:
+        out.append(("clamp-right-after-the-lock-test-and-before-load-and-torques", before(K, L_) and before(L_, LD) and before(L_, DR)))
+    out.append(("load-evaluated-after-the-lock-test(recorded speed)", before(K, LD)))
+    if with_control:
+        out.append(("control-applied-before-the-motor-law", before(C, DR)))
+        out.append(("control-applied-after-the-lock-test(duty cycle in force)", before(K, C)))
+    out.append(("net-torque-after-driving-and-load", before(DR, N) and before(LD, N)))
+    if not held:
+        out.append(("acceleration-after-net-torque", before(N, A)))
+    out.append(("force-after-torques;stress-after-force;current-after-driving-torque-and-control",
+                before(DR, F) and before(LD, F) and before(F, S) and before(DR, I) and (before(C, I) if with_control else True)))
+    out.append(("record-last", all(before(x, R) for x in must if x != R)))
+    return out
+
+
 def job_vars(with_control):
     ct = Vars()
 
@@ -1003,16 +1037,9 @@ def job_vars(with_control):
         for name, g, props in pinst(env, old, None):
             O.prove(f"Pinst:{name}", g, props=props)
         calls = [e[1] if e[0] == "call" else e[0] for e in env.log if e[0] in ("call", "apply_rules")]
-        want = [x for x in ORDER if x != "apply_rules?"]
-        if with_control:
-            want.insert(3, "apply_rules")
-        got = [x for x in calls if x not in ("_compute_locked_powertrain_angular_speed_and_acceleration", "_compute_angular_acceleration")]
-        O.prove("order:position->lock->load->control->drive->net->force->stress->current->record(each once)", got == want,
-                props=("C02", "C13", "C14", "C17"), note=f"call order was {calls}")
-        if "_compute_angular_acceleration" in calls:
-            O.prove("order:acceleration-after-net-torque-before-record",
-                    calls.index("_compute_torque") < calls.index("_compute_angular_acceleration") < calls.index("_update_time_variables"),
-                    props=("C03",))
+        held = "_compute_locked_powertrain_angular_speed_and_acceleration" in calls
+        for nm, ok in instant_order(calls, held, with_control):
+            O.prove(f"order:{nm}", ok, props=("C02", "C03", "C13", "C14", "C17"), note=f"call order was {calls}")
         outside = frame_ok(env, old, PINST_FRAME)
         O.prove("frame:ratios,efficiencies,inertias,classes,flags,time-axis,Jeq-unchanged", not outside,
                 props=("C01", "C02", "C03", "C17"), note=f"writes outside the frame: {outside}")
@@ -1381,6 +1408,7 @@ def job_run_order(fresh, locked_case):
             ([] if locked_case else ["_compute_angular_acceleration"]) + \
             ["_compute_force", "_compute_stress", "_compute_electric_current", "_update_time_variables"]
         env.ghost["order_expected"] = ["update_time", "_time_integration"] + inst0 + ["stop_check"]
+        env.ghost["order_held"] = locked_case
         loops.LOOP_SPECS[RUN_LOOP + "/order"] = loops.LoopSpec(RUN_LOOP, lambda env_, i, entry: _order_inv(env_, i, entry), ("tlen", "tlast", "pwm"))
         saved = loops.LOOP_SPECS[RUN_LOOP]
         loops.LOOP_SPECS[RUN_LOOP] = loops.LOOP_SPECS[RUN_LOOP + "/order"]
@@ -1407,15 +1435,16 @@ def job_run_order(fresh, locked_case):
             ([] if locked_case else ["_compute_angular_acceleration"]) + \
             ["_compute_force", "_compute_stress", "_compute_electric_current", "_update_time_variables"]
         if fresh:
-            O.prove("order:initial-instant=inertia,update_time,one-full-instant,no-stop-check",
-                    pre == ["_compute_powertrain_inertia", "update_time"] + inst, props=props, note=f"{pre}")
+            ok0 = pre[:1] == ["_compute_powertrain_inertia"] and pre.count("update_time") == 1 and "stop_check" not in pre and \
+                "_time_integration" not in pre and all(ok for _, ok in instant_order(pre[pre.index("update_time") + 1:] if "update_time" in pre else [], locked_case, True))
+            O.prove("order:initial-instant=inertia,update_time,one-full-instant,no-stop-check", ok0, props=props, note=f"{pre}")
         else:
             O.prove("order:continuation-starts-with-the-inertia-only", pre == ["_compute_powertrain_inertia"], props=("C12", "C16"), note=f"{pre}")
         ex = g.get("loop_exit")
         if body_ev:
             O.cover("iteration")
             O.prove("order:iteration=update_time,integrate,one-full-instant(recorded),then-exactly-one-stop-check",
-                    body_ev == ["update_time", "_time_integration"] + inst + ["stop_check"], props=props, note=f"{body_ev}")
+                    iteration_ok(body_ev, locked_case), props=props, note=f"{body_ev}")
             last_stop = [e for e in log if e[0] == "stop_check"]
             if ex and ex[0] == "break":
                 O.cover("break")
@@ -1426,6 +1455,16 @@ def job_run_order(fresh, locked_case):
     return Job(f"solver.run-order[{tag}]", body, props + ("C12", "C13"), functions=[f"{Q}.run", f"{Q}._compute_powertrain_variables",
                                                                            f"{Q}._compute_motor_control"],
                expect_covers=("returns", "iteration", "break"), meta=dict(family="solver-run"))
+
+
+def iteration_ok(ev, held):
+    """one loop iteration: the instant is appended to the axis and integrated first, then one full instant is computed
+    and recorded, then -- and only then -- the stop condition is evaluated exactly once"""
+    if ev[:1] != ["update_time"] or ev.count("update_time") != 1 or ev.count("_time_integration") != 1 or ev.count("stop_check") != 1:
+        return False
+    if ev[-1] != "stop_check" or ev.index("_time_integration") != 1:
+        return False
+    return all(ok for _, ok in instant_order(ev[2:-1], held, True))
 
 
 def _order_inv(env, i, entry):
@@ -1444,7 +1483,7 @@ def _order_inv(env, i, entry):
         ev = [(e[1] if e[0] == "call" else e[0]) for e in env.log[g["order_body_start"]:]]
         stops = [e for e in env.log[g["order_body_start"]:] if e[0] == "stop_check"]
         c.prove_in_path("order:iteration-without-break=update_time,integrate,one-full-instant(recorded),then-exactly-one-stop-check",
-                        ev == g["order_expected"], note=f"{ev}")
+                        iteration_ok(ev, g["order_held"]), note=f"{ev}")
         c.prove_in_path("order:continue=>the-check-was-false", z3.Not(stops[-1][1]) if len(stops) == 1 else False)
     return {"true": z3.BoolVal(True)}
 
